@@ -773,6 +773,9 @@ class TdmsChannel(object):
             start = self._length + start
         if stop < 0:
             stop = self._length + stop
+        if step > 0 and start < 0:
+            # Start is before the beginning of the channel
+            start = 0
 
         # Check for empty ranges
         if stop == start:
